@@ -54,15 +54,11 @@ Definition grid_conns : list conn :=
   flat_map (fun al => flat_map (fun sq => map (fun r => mkConn al sq r) grid_rtts) grid_seqnos)
            [true; false].
 
-Definition in_wrap_class (cs : list conn) : bool :=
-  existsb (fun c => c_alive c && (seq32 c =? wrap_seqno)%N) cs.
-
 Fixpoint prevs (n : nat) : list (option nat) :=
   match n with O => [None] | S k => prevs k ++ [Some k] end.
 
 (* (strategy (conn ...)) -> for every last connection of the grid and every previous
-   choice (none, 0..n-1): the result; 'skip for configurations of the known-finding
-   class (an alive connection at 2^32-1), which are not compared *)
+   choice (none, 0..n-1): the result *)
 Definition run_ubx (a : sx) : sx :=
   match a with
   | SL [SN st; SL cl] =>
@@ -70,9 +66,8 @@ Definition run_ubx (a : sx) : sx :=
       | Some pre =>
           SL (flat_map (fun last =>
                 let cs := pre ++ [last] in
-                if in_wrap_class cs then [SA "skip"]
-                else map (fun pv => out_choice (update_best (strat_of st) cs pv))
-                         (prevs (List.length cs)))
+                map (fun pv => out_choice (update_best (strat_of st) cs pv))
+                    (prevs (List.length cs)))
               grid_conns)
       | None => sx_err "ubx args"
       end
@@ -85,29 +80,38 @@ Definition run_ubx (a : sx) : sx :=
     stays pending and may return after a later operation.  Here the same coarse
     operations are scripts of LTS labels; a script that reaches a disabled label
     is pending, and after every operation all pending scripts are advanced until
-    nothing moves. *)
+    nothing moves.  On the repaired code the only operation that can stay pending
+    is SetMasterHead on a full update buffer (holding no lock). *)
 
 Inductive mop :=
 | MLabel (l : label)
-| MPublish (c : nat)      (* the send of SetMasterHead, if the head was stored *)
+| MPublish (m : msg)      (* the send of SetMasterHead, if the head was stored *)
 | MRLock                  (* LRLock with the wait list in registration order *)
-| MSendAll                (* LSend until the remaining list is empty *)
-| MUpdDone.               (* LUpdDone keeping the previous choice (no connection is alive) *)
+| MSendAll.               (* LSend until the remaining list is empty *)
 
 Inductive agent_id := GConn (c : nat) | GRun | GWaiter (w : nat).
-Inductive okind := KDone | KSub (w : nat).
+Inductive okind := KDone | KSub (w : nat) | KBest.
 
-Record pend := mkPend { p_op : nat; p_agent : agent_id; p_script : list mop; p_kind : okind }.
+Record pend_op := mkPend { p_op : nat; p_agent : agent_id; p_script : list mop; p_kind : okind }.
+
+Definition msg_eqb (a b : msg) : bool := Nat.eqb (fst a) (fst b) && N.eqb (snd a) (snd b).
+
+Fixpoint index_of (m : msg) (l : list msg) (i : nat) : option nat :=
+  match l with
+  | [] => None
+  | x :: t => if msg_eqb x m then Some i else index_of m t (S i)
+  end.
 
 Section Walk.
+  Variable strat : strategy.
   Variable nconns : nat.
   Variable tgt : nat -> N.
-  Notation step := (step nconns tgt).
+  Notation step := (step strat nconns tgt).
 
   Fixpoint send_all (fuel : nat) (s : state) : state * bool :=   (* bool: finished *)
     match rpc s with
-    | RNotify _ [] => (s, true)
-    | RNotify _ (_ :: _) =>
+    | RNotify _ _ [] => (s, true)
+    | RNotify _ _ (_ :: _) =>
         match fuel with
         | O => (s, false)
         | S f => match step s LSend with Some s' => send_all f s' | None => (s, false) end
@@ -119,14 +123,13 @@ Section Walk.
   Definition exec_mop (s : state) (m : mop) : state * bool :=
     match m with
     | MLabel l => match step s l with Some s' => (s', true) | None => (s, false) end
-    | MPublish c =>
-        match cpc s c with
-        | CIdle => (s, true)
-        | CPub _ => match step s (LPublish c) with Some s' => (s', true) | None => (s, false) end
+    | MPublish u =>
+        match index_of u (pend s) 0 with
+        | None => (s, true)
+        | Some k => match step s (LPublish k) with Some s' => (s', true) | None => (s, false) end
         end
     | MRLock => match step s (LRLock (map snd (wl s))) with Some s' => (s', true) | None => (s, false) end
     | MSendAll => send_all (S (List.length (wl s))) s
-    | MUpdDone => match step s (LUpdDone (best s)) with Some s' => (s', true) | None => (s, false) end
     end.
 
   Fixpoint advance (s : state) (script : list mop) : state * list mop :=
@@ -140,10 +143,11 @@ Section Walk.
     match k with
     | KDone => SA "done"
     | KSub w => SL [SA "sub"; SB (match wch s w with Some _ => true | None => false end)]
+    | KBest => SL [SA "best"; out_choice (best s)]
     end.
 
   (* one pass over the pending operations: (state, still pending, completions, progress) *)
-  Fixpoint settle_pass (s : state) (ps : list pend) : state * list pend * list sx * bool :=
+  Fixpoint settle_pass (s : state) (ps : list pend_op) : state * list pend_op * list sx * bool :=
     match ps with
     | [] => (s, [], [], false)
     | p :: t =>
@@ -156,7 +160,7 @@ Section Walk.
         end
     end.
 
-  Fixpoint settle (fuel : nat) (s : state) (ps : list pend) : state * list pend * list sx :=
+  Fixpoint settle (fuel : nat) (s : state) (ps : list pend_op) : state * list pend_op * list sx :=
     match fuel with
     | O => (s, ps, [])
     | S f =>
@@ -173,10 +177,10 @@ Section Walk.
     | _, _ => false
     end.
 
-  Definition busy (ps : list pend) (a : agent_id) : bool :=
+  Definition busy (ps : list pend_op) (a : agent_id) : bool :=
     existsb (fun p => agent_eqb (p_agent p) a) ps.
 
-  Definition wants_lock (p : pend) : bool :=
+  Definition wants_lock (p : pend_op) : bool :=
     match p_script p with
     | MLabel (LSubLock _) :: _ | MLabel (LUnsub _) :: _ | MLabel LTick :: _ => true
     | _ => false
@@ -184,7 +188,7 @@ Section Walk.
 
   (* start a script: result of the operation itself, new state, new pending list *)
   Definition launch (i : nat) (a : agent_id) (script : list mop) (k : okind)
-             (blocked : sx) (s : state) (ps : list pend) : sx * state * list pend :=
+             (blocked : sx) (s : state) (ps : list pend_op) : sx * state * list pend_op :=
     let '(s1, rest) := advance s script in
     match rest with
     | [] => (finish k s1, s1, ps)
@@ -193,67 +197,82 @@ Section Walk.
 
   Definition small (n : N) : nat := N.to_nat (N.min n 64).
 
-  Definition do_op (i : nat) (nw : nat) (o : sx) (s : state) (ps : list pend) : sx * state * list pend :=
+  Fixpoint set_nth_obs (i : nat) (v : bool * Z) (l : list (bool * Z)) : list (bool * Z) :=
+    match i, l with
+    | O, _ :: t => v :: t
+    | O, [] => [v]
+    | S k, x :: t => x :: set_nth_obs k v t
+    | S k, [] => (false, 0%Z) :: set_nth_obs k v []
+    end.
+
+  (* obs: what IsOK() / AverageRoundTrip() of the connections currently answer *)
+  Definition do_op (i : nat) (nw : nat) (o : sx) (obs : list (bool * Z)) (s : state) (ps : list pend_op)
+    : sx * list (bool * Z) * state * list pend_op :=
+    let ret (x : sx * state * list pend_op) := let '(r, s1, ps1) := x in (r, obs, s1, ps1) in
     match o with
     | SL (SA nm :: args) =>
       let is x := String.eqb nm x in
       match args with
       | [] =>
           if is "notify" then
-            if busy ps GRun then (SA "busy", s, ps) else
+            if busy ps GRun then ret (SA "busy", s, ps) else
             match step s LTake with
-            | None => (SA "empty", s, ps)
+            | None => ret (SA "empty", s, ps)
             | Some s1 =>
                 let u := match rpc s1 with RWantR u => u | _ => (0, 0%N) end in
                 let '(r, s2, ps2) := launch i GRun [MRLock; MSendAll; MLabel LRUnlock] KDone (SA "blocked") s1 ps in
-                (SL [r; sx_nat (fst u); SN (snd u)], s2, ps2)
+                (SL [r; sx_nat (fst u); SN (snd u)], obs, s2, ps2)
             end
           else if is "tick" then
-            if busy ps GRun then (SA "busy", s, ps) else
-            launch i GRun (MLabel LTick :: repeat (MLabel LUpdRead) nconns ++ [MUpdDone]) KDone (SA "blocked") s ps
+            if busy ps GRun then ret (SA "busy", s, ps) else
+            ret (launch i GRun [MLabel LTick; MLabel (LUpdDone obs)] KBest (SA "blocked") s ps)
           else if is "state" then
             let locked := match writer s with Some _ => true | None => false end || existsb wants_lock ps in
-            (SL [sx_nat (List.length (updq s));
-                 (if locked then SA "locked" else sx_nat (List.length (wl s)));
-                 SL (map (fun w => SB (match wch s w with Some _ => true | None => false end)) (seq 0 nw))],
-             s, ps)
-          else (sx_err "op0", s, ps)
+            ret (SL [sx_nat (List.length (updq s));
+                     (if locked then SA "locked" else sx_nat (List.length (wl s)));
+                     SL (map (fun w => SB (match wch s w with Some _ => true | None => false end)) (seq 0 nw));
+                     out_choice (best s)],
+                 s, ps)
+          else ret (sx_err "op0", s, ps)
       | [SN a1] =>
           let w := small a1 in
           if is "sub" then
-            if busy ps (GWaiter w) then (SA "busy", s, ps) else
+            if busy ps (GWaiter w) then ret (SA "busy", s, ps) else
             match wpc s w with
-            | WNew => launch i (GWaiter w) [MLabel (LSubLock w); MLabel (LSubBody w)] (KSub w) (SA "blocked") s ps
-            | _ => (SA "bad", s, ps)
+            | WNew => ret (launch i (GWaiter w) [MLabel (LSubLock w); MLabel (LSubBody w)] (KSub w) (SA "blocked") s ps)
+            | _ => ret (SA "bad", s, ps)
             end
           else if is "recv" then
-            if busy ps (GWaiter w) then (SA "bad", s, ps) else
+            if busy ps (GWaiter w) then ret (SA "bad", s, ps) else
             match wpc s w, wch s w with
             | WWait, Some m =>
                 match step s (LRecv w) with
-                | Some s1 => (SL [SA "head"; SN (snd m)], s1, ps)
-                | None => (sx_err "recv", s, ps)
+                | Some s1 => ret (SL [SA "head"; SN (snd m)], s1, ps)
+                | None => ret (sx_err "recv", s, ps)
                 end
-            | WWait, None => (SA "empty", s, ps)
-            | _, _ => (SA "bad", s, ps)
+            | WWait, None => ret (SA "empty", s, ps)
+            | _, _ => ret (SA "bad", s, ps)
             end
           else if is "unsub" then
-            if busy ps (GWaiter w) then (SA "busy", s, ps) else
+            if busy ps (GWaiter w) then ret (SA "busy", s, ps) else
             match wpc s w with
-            | WWait => launch i (GWaiter w) [MLabel (LLeave w RTimeout); MLabel (LUnsub w)] KDone (SA "blocked") s ps
-            | WUnsub _ => launch i (GWaiter w) [MLabel (LUnsub w)] KDone (SA "blocked") s ps
-            | _ => (SA "bad", s, ps)
+            | WWait => ret (launch i (GWaiter w) [MLabel (LLeave w RTimeout); MLabel (LUnsub w)] KDone (SA "blocked") s ps)
+            | WUnsub _ => ret (launch i (GWaiter w) [MLabel (LUnsub w)] KDone (SA "blocked") s ps)
+            | _ => ret (SA "bad", s, ps)
             end
-          else (sx_err "op1", s, ps)
+          else ret (sx_err "op1", s, ps)
       | [SN a1; SN h] =>
           let c := small a1 in
           if is "sethead" then
-            if busy ps (GConn c) then (SA "busy", s, ps) else
-            launch i (GConn c) [MLabel (LSetHead c h); MPublish c] KDone (SA "blocked") s ps
-          else (sx_err "op2", s, ps)
-      | _ => (sx_err "op args", s, ps)
+            if busy ps (GConn c) then ret (SA "busy", s, ps) else
+            ret (launch i (GConn c) [MLabel (LSetHead c h); MPublish (c, h)] KDone (SA "blocked") s ps)
+          else ret (sx_err "op2", s, ps)
+      | [SN a1; SB al; SZ r] =>
+          if is "conn" then (SA "done", set_nth_obs (small a1) (al, r) obs, s, ps)
+          else ret (sx_err "op3", s, ps)
+      | _ => ret (sx_err "op args", s, ps)
       end
-    | _ => (sx_err "op", s, ps)
+    | _ => ret (sx_err "op", s, ps)
     end.
 
   (* completions are reported in the order of the operation index *)
@@ -266,13 +285,41 @@ Section Walk.
     end.
   Definition sort_by_index (l : list sx) : list sx := fold_right ins_by_index [] l.
 
-  Fixpoint run_ops (i : nat) (nw : nat) (ops : list sx) (s : state) (ps : list pend) : list sx :=
+  Fixpoint run_ops (i : nat) (nw : nat) (ops : list sx) (obs : list (bool * Z)) (s : state) (ps : list pend_op)
+    : list sx :=
     match ops with
     | [] => []
     | o :: t =>
-        let '(r, s1, ps1) := do_op i nw o s ps in
+        let '(r, obs1, s1, ps1) := do_op i nw o obs s ps in
         let '(s2, ps2, outs) := settle (S (S (List.length ps1))) s1 ps1 in
-        SL [r; SL (sort_by_index outs)] :: run_ops (S i) nw t s2 ps2
+        SL [r; SL (sort_by_index outs)] :: run_ops (S i) nw t obs1 s2 ps2
+    end.
+
+  (** the real WaitMasterchainSeqno under the real Run loop, one waiter (index 0):
+      subscribe, then every head in turn is stored, published, taken by Run,
+      notified and received; at the end the timeout / cancellation fires *)
+  Definition try_step (s : state) (l : label) : state :=
+    match step s l with Some s' => s' | None => s end.
+
+  Definition deliver (s : state) (c : nat) (h : N) : state :=
+    let s1 := try_step s (LSetHead c h) in
+    let s2 := try_step s1 (LPublish 0) in
+    let s3 := try_step s2 LTake in
+    let s4 := try_step s3 (LRLock (map snd (wl s3))) in
+    let s5 := fst (send_all 4 s4) in
+    let s6 := try_step s5 LRUnlock in
+    try_step s6 (LRecv 0).
+
+  Definition wait_scenario (s0 : state) (heads : list (nat * N)) (fin : wres) : sx :=
+    let s1 := try_step (try_step s0 (LSubLock 0)) (LSubBody 0) in
+    let s2 := try_step s1 (LRecv 0) in
+    let s3 := fold_left (fun s ch => deliver s (fst ch) (snd ch)) heads s2 in
+    let s4 := try_step (try_step s3 (LLeave 0 fin)) (LUnsub 0) in
+    match wpc s4 0 with
+    | WDone ROk => SA "nil"
+    | WDone RTimeout => SA "timeout"
+    | WDone RCancel => SA "cancel"
+    | _ => sx_err "wait"
     end.
 End Walk.
 
@@ -283,19 +330,41 @@ Fixpoint nth_tgt (l : list sx) (w : nat) : N :=
   | _, _ => 0%N
   end.
 
-(* (nconns (tgt ...) (op ...)): connection 0 is the best one, all heads 0 *)
+(* (strategy nconns (tgt ...) (op ...)): connection 0 is the best one, all heads 0,
+   no connection is alive until a 'conn operation says so *)
 Definition run_walk (a : sx) : sx :=
   match a with
-  | SL [SN nc; SL tgts; SL ops] =>
+  | SL [SN st; SN nc; SL tgts; SL ops] =>
       let nconns := small nc in
-      SL (run_ops nconns (nth_tgt tgts) 0 (List.length tgts) ops
+      SL (run_ops (strat_of st) nconns (nth_tgt tgts) 0 (List.length tgts) ops []
                   (init_state (fun _ => 0%N) (if Nat.eqb nconns 0 then None else Some 0)) [])
   | _ => sx_err "walk"
   end.
+
+Fixpoint heads_of (l : list sx) : list (nat * N) :=
+  match l with
+  | SL [SN c; SN h] :: t => (small c, h) :: heads_of t
+  | _ => []
+  end.
+
+(* (tgt h0 ((conn head) ...) cancel?): two connections, 0 is the best one with head h0 *)
+Definition run_wait (a : sx) : sx :=
+  match a with
+  | SL [SN tg; SN h0; SL hs; SB cancel] =>
+      wait_scenario BestPing 2 (fun _ => tg)
+        (init_state (fun c => if Nat.eqb c 0 then h0 else 0%N) (Some 0))
+        (heads_of hs) (if cancel then RCancel else RTimeout)
+  | _ => sx_err "wait args"
+  end.
+
+(* deterministic reproductions of the repaired defects: the model has none *)
+Definition run_repro (a : sx) : sx := SA "ok".
 
 Definition run (name : string) (a : sx) : sx :=
   let is x := String.eqb name x in
   if is "c13.ub" then run_ub a
   else if is "c13.ubx" then run_ubx a
   else if is "c13.walk" then run_walk a
+  else if is "c13.wait" then run_wait a
+  else if is "c13.repro" then run_repro a
   else sx_err "unknown case kind".
